@@ -1695,6 +1695,15 @@ class Tensor:
         if self._base is not None and not self._base._view_children:
             self._base = None
 
+        # The update invalidates the gradient of every tensor that shares memory
+        # with ``self``: its base and all views of that base (placeholders cannot
+        # be created for tensors that hold a gradient)
+        _family = [self if self.base is None else self.base]
+        while _family:
+            _member = _family.pop()
+            _member.null_grad()
+            _family.extend(_member._view_children)
+
         graph = _dup.DuplicatingGraph(self if self.base is None else self.base)
 
         # Create copy of base so that mutation has no impact on the
